@@ -22,6 +22,35 @@ CHECKS = {
     },
 }
 
+def _c(engine, technique, text, ref, note, level="other"):
+    return {"engine": engine, "level": level, "technique": technique, "text": text, "design_ref": ref, "note": note}
+
+
+_TB = "Trusted: rustc nightly MIR construction, type checking and trait resolution; the fact extractor of this repository; std/chrono documentation for summarised callees. "
+
+CHECKS.update({
+    "C03": _c("mirfacts", "MIR dataflow rules: callee/operand provenance of state/is_*/next_change, abstract evaluation of the bound comparison on the three orderings",
+              "Decides three structural clauses: the three predicates are exactly the three RuleKind cases of state on the same instant; next_change returns the end of the first interval of iter_from(instant) and maps 'naive(end) >= DATE_END' (true at equality, false below) to none; state evaluates a non-empty window and defaults to closed. It does not decide 'never earlier, never later' (values of the iterator).",
+              "DESIGN.md section 3, C03", _TB + "Not decided: iterator values, sub-minute behaviour."),
+    "C08": _c("mirfacts", "MIR dominance and provenance rules: constant tables, guard dominance, min/max clamping data paths, fallback constants of hints",
+              "Decides: DATE_START/DATE_END are the documented constants and agree with the year frame and the Python layer; the exclusive date-range guard dominates every producer of day schedules and the pre-1900 guard (on the unmodified date) precedes the constant shortcut; both window ends reach the iterator only through min(DATE_END, .) and every emitted range is max(start, from)..min(end, to); hint fallbacks saturate to DATE_END. Does not decide that the first reported instant is the first non-closed one.",
+              "DESIGN.md section 3, C08", _TB + "Not decided: values produced by the iterator."),
+    "C14": _c("mirfacts+witness", "MIR ownership (who-may-write) rule, query-based sibling rule on merge-by-start loops, dominance/path rules on in-place merge and hole filling, compile_fail witnesses",
+              "Decides: only module schedule builds or mutates a schedule's range vector; wherever ranges sorted by start are merged the farther end is kept (from_ranges and ranges_union are found by query); inputs are filtered by start < end; an in-place merge re-examines the merged element; hole filling extends closed periods under kind == HOLES_STATE; every yielded value passes pre_yield. Does not decide overlay ('most recent wins') and coalescing semantics of insert.",
+              "DESIGN.md section 3, C14", _TB + "Not decided: insert/addition value semantics, exact tiling."),
+    "C15": _c("mirfacts+witness", "MIR writer/reader wire-atom agreement, interval analysis of shift amounts under asserted parameter ranges, path rules on insert, adaptor-class rule on zip operands, compile_fail witnesses",
+              "Decides: serialize/deserialize of the three types agree on the ordered wire atoms, buffer sizes and byte order and move values unmodified; every variable shift amount is proved in range from the asserted parameter ranges; fields are private and no mutable reference to the representation escapes; equality is derived and every window-opening path of insert sets first_year; year labels are zipped with unfiltered year slots. Does not decide bit positions, window growth counts, first_after values.",
+              "DESIGN.md section 3, C15", _TB + "Not decided: arithmetic on runtime values (bit positions, counts)."),
+    "C19": _c("mirfacts+witness", "exact path-box analysis of ExtendedTime::new (branches compare parameters with constants), interval analysis of all arithmetic, fmt template decoding, provenance rules, const-evaluated compile-time witness",
+              "Decides: the accepted region of `new` is exactly {minute <= 59, 60*hour+minute <= 2880} (exhaustive over the box decomposition of its CFG paths, cross-checked by a const-evaluated witness over all u8 x u8 pairs); literals exist only in new and From<NaiveTime>; no arithmetic or cast on extended times can wrap for any argument; Display is {:02}:{:02} on (hour, minute); conversions pass (hour, minute, 0) and use / 60, % 60, * 60 on the right operands. Does not decide ordering (derived) and add_* results beyond no-silent-wrap.",
+              "DESIGN.md section 3, C19", _TB + "The const witness is evaluated by rustc's const interpreter at type-check time and is reported under its own rule id (C19.W1)."),
+    "C20": _c("mirfacts+witness", "MIR construction-site inventory with must-pass-through (sort then dedup) on the data path, ownership rule, guard/provenance rules on union, compile_fail witnesses",
+              "Decides: a UniqueSortedVec can only be created empty, from a vector that passed natural-order sort then dedup on every path, or element-wise through Borrow from an existing instance; it is never handed out mutably; in union every extend is guarded by last(receiver) < first(argument), every push pushes the popped maximum onto the recursive result, and recursion is preceded by a pop; lookups binary-search the inner vector. Does not decide that union equals set union for every interleaving.",
+              "DESIGN.md section 3, C20", _TB + "Assumes Borrow preserves order (documented by the crate)."),
+})
+ENGINES[0]["serves_properties"] = sorted(CHECKS.keys())
+ENGINES[1]["serves_properties"] = ["C14", "C15", "C18", "C19", "C20"]
+
 NOT_APPLICABLE = {
     "C16": "Every sentence compares durations measured at run time from two reference points of a stateful iterator; no clause whose truth is visible in the shape of the code could be separated without either inter-call path-sensitive taint over iterator state or freezing a source fragment (DESIGN.md section 4).",
 }
